@@ -122,6 +122,7 @@ impl<'b, B: WriteBuffer> JwkBufferEncoder<'b, B> {
         if let Some(ops) = self.key_ops {
             self.start_attr("key_ops")?;
             let buffer = &mut *self.buffer;
+            buffer.buffer_write(b"[")?;
             for (idx, op) in ops.into_iter().enumerate() {
                 if idx > 0 {
                     buffer.buffer_write(b",\"")?;
